@@ -902,6 +902,9 @@ PROPS["C15"] = {
         "Lace.C15.refused_noop",
         "Lace.C15.eval_refusals_noop",
         "Lace.C15.eval_never_ends_session_partial",
+        "Lace.C15.parseSimple_no_panic_holds",
+        "Lace.C15.parseSimple_diag_inside",
+        "Lace.C15.eval_text_total",
     ],
     "compare": cmp_default,
     "classify": src_classify,
@@ -933,6 +936,10 @@ PROPS["C15"] = {
 PROPS["C17"] = {
     "theorems": [
         "Lace.C17.span_starts_at_statement_token",
+        "Lace.C17.span_covers_operands_holds",
+        "Lace.C17.multiword_share_span_holds",
+        "Lace.C17.span_inside_source_holds",
+        "Lace.C17.show_single_line_no_panic",
         "Lace.C17.span_text_eq_statement_partial",
         "Lace.C17.no_statement_no_text",
         "Lace.C17.statement_text",
